@@ -47,6 +47,39 @@ def prim_vectors(ck):
     return vecs, out[:-1]
 
 
+def validate_events_big(ck, module, cfg, trace_path, timeout=900, name=None, heap_gb=2, extra_files=None):
+    """Check.validate_events for big traces: the same judgement (every line judged on its own by TLC, verdicts complete or
+    Infra), but the trace is linted and copied by a process of its own (tools/prep_trace.py) and only the rejected lines
+    are parsed here - the runner's interpreter lock otherwise serialises hundreds of megabytes of JSON work."""
+    import sys
+    p = subprocess.run([sys.executable, os.path.join(vlib.VERIF, "tools/prep_trace.py"), trace_path], stdout=subprocess.PIPE, stderr=subprocess.STDOUT, text=True)
+    if p.returncode != 0 or "EVENTS " not in p.stdout:
+        raise Infra("trace %s not usable: %s" % (trace_path, p.stdout[-1500:]))
+    n = int(p.stdout.split("EVENTS ")[1].split()[0])
+    if n == 0:
+        raise Infra("trace %s has no events" % trace_path)
+    tp = trace_path + ".tlc"
+    files = {"trace.ndjson": tp}
+    files.update(extra_files or {})
+    res = ck.tlc(module, cfg, files=files, workers=1, timeout=timeout, name=name, heap_gb=heap_gb)
+    if res.error or res.rc != 0:
+        raise Infra("TLC error during event validation of %s (see %s/tlc.out):\n%s" % (module, res.dir, vlib.tail_errors(res.out)))
+    verdict = {t[1]: t[2] for t in res.tuples("EV")}
+    if sorted(verdict) != list(range(1, n + 1)):
+        raise Infra("verdicts incomplete for %s: %d of %d" % (module, len(verdict), n))
+    bad = set(i for i in verdict if verdict[i] != "ok")
+    rejected = []
+    if bad:
+        with open(tp) as f:
+            for i, l in enumerate(f, 1):
+                if i in bad:
+                    rejected.append({"line": i, "event": json.loads(l)})
+    ck.traces_ok += n - len(rejected)
+    ck.evaluations += n
+    res.notes = res.tuples("NOTE")
+    return res, rejected
+
+
 def type_class(name):
     import re
     m = re.match(r"^(tlb\.)?(Uint|Int|Bits|VarUInteger)(\d+)$", name)
